@@ -106,6 +106,10 @@ class C07(EvalFamProp):
         # document): nothing of the file may run (S6-C07)
         for _ in range(max(3, n // 8)):
             out.append(gen_inc_case(rng))
+        # lazily included files: `!rec [base.yaml, !unsafe evil.yaml]` - every entry carries its own safety (seeded change S9-C07:
+        # all files of a !rec node were loaded with the safety of the node); outside the model, oracle only
+        for _ in range(max(2, n // 20)):
+            out.append(gen_rec_case(rng))
         # a LONG list of plain scalars with one unsafe element (tagged, patched in by a later document through an index key, or appended
         # by an unsafe source), consumed by a call / bind / eval directly or through a reference (seeded change S8-C07: lists of ten or
         # more plain scalars were evaluated without looking at their elements)
@@ -115,11 +119,13 @@ class C07(EvalFamProp):
 
     def model_requests(self, case):
         if case.get('fam') == 'inc':
-            return [inc_request(case, self.WORLD)]
+            return [] if case.get('rec') else [inc_request(case, self.WORLD)]
         return [] if case.get('fam') == 'fstr' else super().model_requests(case)
 
     def model_obs(self, case, answers):
         if case.get('fam') == 'inc':
+            if case.get('rec'):       # lazily included files (!rec) are outside the model: oracle only
+                return {k: {'err': 'unsupported'} for k in ('stages', 'tree', 'cfg')}
             return answers[0]
         return {'err': 'unsupported'} if case.get('fam') == 'fstr' else super().model_obs(case, answers)
 
@@ -395,7 +401,7 @@ def impl_inc(case, world):
 
 def oracle_inc(case, io):
     how = case.get('how')
-    if '"include"' not in json.dumps([d['raw'] for d in case['docs']]):
+    if '"include"' not in json.dumps([d['raw'] for d in case['docs']]) and '!rec' not in json.dumps([d['raw'] for d in case['docs']]):
         return None          # (shrunk) no include node left: outside the family
     log = io['cfg'].get('log', [])
     if how == 'none':
@@ -445,3 +451,19 @@ def gen_biglist_case(rng, ctr):
     elif how == 'append':
         docs.append({'raw': G.nest(where, Q([S(mk())], tag='append')), 'safe': False})
     return {'docs': docs, 'style': ['flow', 0, 0]}
+
+
+def gen_rec_case(rng):
+    call = lambda f, items, **kw: M(items, tag={'k': 'call', 'f': f}, **kw)
+    mk = rng.randrange(8000, 8999)
+    how = rng.choice(['source', 'elem', 'elem', 'above', 'none', 'none'])
+    files = [['base.yaml', [M([('p', S(1))])]], ['evil.yaml', [M([('r', call('rec.g', {'p': S(mk)})), ('v', S(mk + 1000))])]]]
+    names = [S('base.yaml'), S('evil.yaml', kw={'safe': False} if how == 'elem' else None)]
+    if rng.random() < 0.3:
+        names.reverse()
+    rec = Q(names, tag='rec', txt='!rec')
+    holder = M([('x', rec)], kw={'safe': False}) if how == 'above' else rec
+    docs = [{'raw': M([('k', S(1)), ('sub', holder)])}]
+    if how == 'source':
+        docs[0]['safe'] = False
+    return {'fam': 'inc', 'rec': True, 'how': how, 'files': files, 'docs': docs, 'style': ['flow', 0, 0], 'markers': [mk, mk + 1000, mk + 2000, mk + 3000]}
